@@ -34,6 +34,7 @@ type Opts struct {
 	Contexts      int    // maximal number of context parameters
 	ConvArg       bool   // custom functions may take the converter as first argument
 	UseUnderlying bool   // may use useUnderlyingTypeMethods
+	CompositeKeys bool   // map keys may be pointers or structs holding pointers
 	TargetsInConv bool   // target types live in the converter package, which is also the output package
 	SourcesInConv bool   // source types live in the converter package, output goes elsewhere
 	Format        string // "" (struct) | function | variable
@@ -554,6 +555,9 @@ func (b *Builder) pairAssign(depth int) (*spec.T, *spec.T) {
 }
 
 func (b *Builder) keyPair() (*spec.T, *spec.T) {
+	if b.O.CompositeKeys && b.chance(35, "composite-key") {
+		return b.compositeKey()
+	}
 	k := keyKinds[b.draw(len(keyKinds), "keykind")]
 	s, t := spec.Basic(k), spec.Basic(k)
 	if b.chance(25, "named-key-src") {
@@ -563,6 +567,59 @@ func (b *Builder) keyPair() (*spec.T, *spec.T) {
 		t = b.namedBasic(b.B, "L", t)
 	}
 	return s, t
+}
+
+// compositeKey builds comparable map keys that are not basic: pointers and structs (unnamed,
+// named per side, or one named type on both sides) whose fields are basics or pointers to basics.
+func (b *Builder) compositeKey() (*spec.T, *spec.T) {
+	leaf := func() (*spec.T, *spec.T) {
+		s, t := b.leafBasic()
+		if b.coin("key-leaf-ptr") {
+			return spec.Ptr(s), spec.Ptr(t)
+		}
+		return s, t
+	}
+	keyFields := func(same bool) ([]spec.Field, []spec.Field) {
+		var fs, ft []spec.Field
+		n := 1 + b.draw(3, "key-nfields")
+		for i := 0; i < n; i++ {
+			s, t := leaf()
+			if same {
+				t = s
+			}
+			nm := fmt.Sprintf("K%d", i)
+			fs, ft = append(fs, spec.F(nm, s)), append(ft, spec.F(nm, t))
+		}
+		return fs, ft
+	}
+	switch b.draw(4, "composite-key-kind") {
+	case 0:
+		b.label("key:pointer")
+		s, t := b.leafBasic()
+		return spec.Ptr(s), spec.Ptr(t)
+	case 1:
+		b.label("key:unnamed-struct")
+		fs, ft := keyFields(false)
+		return spec.Struct(fs...), spec.Struct(ft...)
+	case 2:
+		b.label("key:named-struct")
+		fs, ft := keyFields(false)
+		id := b.id()
+		sn, tn := fmt.Sprintf("KS%d", id), fmt.Sprintf("KT%d", id)
+		b.A.Types = append(b.A.Types, &spec.TypeDecl{Name: sn, U: spec.Struct(fs...)})
+		b.B.Types = append(b.B.Types, &spec.TypeDecl{Name: tn, U: spec.Struct(ft...)})
+		return spec.Named(b.A.Key, sn), spec.Named(b.B.Key, tn)
+	default:
+		// one type on both sides: without skipCopySameType it is still copied field by field
+		b.label("key:identical-struct")
+		fs, _ := keyFields(true)
+		if b.coin("identical-key-unnamed") {
+			return spec.Struct(fs...), spec.Struct(fs...)
+		}
+		sn := fmt.Sprintf("KS%d", b.id())
+		b.A.Types = append(b.A.Types, &spec.TypeDecl{Name: sn, U: spec.Struct(fs...)})
+		return spec.Named(b.A.Key, sn), spec.Named(b.A.Key, sn)
+	}
 }
 
 func (b *Builder) exotic() (*spec.T, *spec.T) {
@@ -920,7 +977,7 @@ func (b *Builder) fields(depth int, own *model.Method, sd *spec.TypeDecl) ([]spe
 			variants = append(variants, "embedded")
 		}
 		if own != nil {
-			variants = append(variants, "rename", "recase", "nest", "extra-ignore", "extra-missing", "automap", "recase-exact")
+			variants = append(variants, "rename", "recase", "nest", "extra-ignore", "extra-missing", "automap", "recase-exact", "case-twin")
 			if b.noDot {
 				b.label("excluded:F-UPDATE-PTRSRC-WHOLE")
 			} else {
@@ -1014,6 +1071,31 @@ func (b *Builder) fields(depth int, own *model.Method, sd *spec.TypeDecl) ([]spe
 			f := b.newFunc(nil, tt, false)
 			ft = append(ft, spec.F(tn, tt))
 			own.Fields[tn] = &model.FieldCfg{Func: f}
+		case "case-twin":
+			// two target fields that differ only in case and a setting on one of them: under
+			// matchIgnoreCase the setting must stay on the field it names
+			nm := name()
+			tw := flipCase(nm)
+			if !strings.EqualFold(nm, tw) || nm == tw {
+				break
+			}
+			b.label("field:case-twin")
+			s, t := b.leafBasic()
+			fs = append(fs, spec.F(nm, s), spec.F(tw, s))
+			ft = append(ft, spec.F(nm, t), spec.F(tw, t))
+			own.Settings.MatchIgnoreCase = true
+			own.FieldLines++
+			how := b.draw(3, "case-twin-how")
+			switch {
+			case how == 0:
+				own.Fields[tw] = &model.FieldCfg{Ignore: true}
+			case how == 1 || !b.O.Custom:
+				other := name()
+				fs = append(fs, spec.F(other, s))
+				own.Fields[tw] = &model.FieldCfg{Source: other}
+			default:
+				own.Fields[tw] = &model.FieldCfg{Source: tw, Func: b.newFunc(s, t, true)}
+			}
 		case "recase-exact":
 			// exact-name candidate next to a case-insensitive one: the exact one wins
 			nm := name()
@@ -1418,7 +1500,26 @@ func (b *Builder) UpdateMethod(name string, depth int) *model.Method {
 	// `map . F` in an update method with a pointer source uses the pointer where the
 	// struct value is needed (known finding F-UPDATE-PTRSRC-WHOLE)
 	b.noDot = ptrSource && b.OpenPtrSrcWhole
-	s, t := b.structPairFor(m, depth, true)
+	var s, t *spec.T
+	if b.chance(15, "update-same-type") {
+		// source and target are one struct type (a merge method)
+		b.label("update:same-type")
+		sd := &spec.TypeDecl{Name: fmt.Sprintf("U%d", b.id())}
+		b.A.Types = append(b.A.Types, sd)
+		all, _ := b.fields(depth, nil, sd)
+		var fs []spec.Field
+		for _, f := range all {
+			// the type serves as target too: unexported fields only where the output package may write them
+			if b.O.SamePkg || f.Name == "" || (f.Name[0] >= 'A' && f.Name[0] <= 'Z') {
+				fs = append(fs, f)
+			}
+		}
+		sd.U = spec.Struct(fs...)
+		s = spec.Named(b.A.Key, sd.Name)
+		t = s
+	} else {
+		s, t = b.structPairFor(m, depth, true)
+	}
 	b.inUpdate, b.comparableOnly, b.noPtrToNamed, b.noDot = false, false, false, false
 	srcT := s
 	if ptrSource {
